@@ -59,6 +59,11 @@ def run_case(case: Dict[str, Any]) -> CaseResult:
         tag = f" [call {i} of {len(case['calls'])}, mode={c.get('mode')}, sel={c.get('sel')}]"
         for r, m, k in oracle.exactly_once(T, c):
             res.viol(r, m + tag, k)
+        spawn_fired = out.ex is not None and any(e["k"] == "SPAWNFAIL" for e in out.ex.events)
+        if spawn_fired:
+            res.cls("spawn-fault-fired")
+        if out.exc is not None and spawn_fired and sc._is_spawn_fault(out.exc):
+            break  # the injected pool fault failed the call (it is the last one of the history)
         if out.exc is not None:
             res.viol("internal-error", f"the call raised {type(out.exc).__name__}: {out.exc}" + tag)
         elif c.get("call") != "setup" and out.ref_exc is None and out.value != out.ref_value:
@@ -144,6 +149,9 @@ def cases(draw: Any, tier: str) -> Dict[str, Any]:
         elif len(case["calls"]) > 0 and not call["debug"] and draw(st.sampled_from([True, False, False])):
             call["early"] = True  # the executor object is created before the first call of the history
         case["calls"].append(call)
+    if gen.chance(draw, 0.08) and case["calls"][-1].get("call") != "setup":
+        # fault at a point: during the last call the pool cannot start its k-th worker thread
+        case["calls"][-1]["spawn_fail"] = draw(st.integers(0, max(0, case["mc"] - 1)))
     return case
 
 
